@@ -178,6 +178,23 @@ def pset_targeted(rng, b):
     return out
 
 
+def ltx_targeted(rng):
+    """length prefixes of the witness section of an Elements transaction (issuance range proofs, script / peg-in
+    witness items, surjection and range proofs of the outputs) set to attacker-chosen values with little behind them;
+    also as the previous transaction of a PSET input"""
+    out = []
+    txin = b"\x11" * 32 + b"\x01\x00\x00\x00" + b"\x00" + b"\xfd\xff\xff\xff"
+    txout = b"\x01" + b"\x33" * 32 + b"\x01" + (1000).to_bytes(8, "big") + b"\x00" + b"\x01\x51"
+    body = b"\x02\x00\x00\x00\x01" + gen.cs(1) + txin + gen.cs(1) + txout + b"\x00" * 4
+    for n in BIGN:
+        tail = b"\x44" * rng.choice([0, 3, 70])
+        for pre in (b"", b"\x00", b"\x00\x00", b"\x00\x00\x01", b"\x00\x00\x00\x01", b"\x00\x00\x00\x00", b"\x00\x00\x00\x00\x00"):
+            # pre = the witness fields before the hostile one: proofs (length), witnesses (item count, item length)
+            out.append(("ltx-prooflen", body + pre + gen.cs(n) + tail))
+    rng.shuffle(out)
+    return out
+
+
 def text_mutants(rng, s, n):
     out = []
     opens = ["wsh(", "sh(", "tr(", "and_v(", "or_d(", "thresh(1,", "v:", "a:s:c:", "multi(1,", "[", "{", "<", "pkh(", "andor("]
@@ -342,6 +359,11 @@ def explore(c, per_seed):
                     muts = muts + [("truncate-every", s[:k]) for k in range(len(s))]
                 if ep in ("psbt.parse", "psbt.parse.c1", "psbtview", "psbt.read_from.noseek", "psbt.read_from.file"):
                     muts = muts + psbt_targeted(c.rng, s)[: per_seed * 2]
+                if ep in ("ltx.parse", "ltx.read_from.noseek", "ltx.read_from.file"):
+                    done = exhaustive.get("ltx:" + ep, 0)
+                    exhaustive["ltx:" + ep] = done + 1
+                    if done == 0:
+                        muts = muts + ltx_targeted(c.rng)
                 if ep in ("pset.parse", "pset.parse.c1", "psetview", "pset.read_from.noseek", "pset.read_from.file"):
                     done = exhaustive.get("pset:" + ep, 0)
                     exhaustive["pset:" + ep] = done + 1
